@@ -12,7 +12,7 @@ PROP = {
             "and the real trz (escape on/off x compress yes/no/auto x protocol 4/2/1): every byte of the recorded client->server wire is checked "
             "against the table announced in the server's CFG line, and that table must contain what the options promise whatever the server announces "
             "('~' always; with -e also CR, DLE, XON, XOFF, CAN, ESC, GS and the 8-bit forms the built-in table has: 8d 90 91 93 9d). "
-            "Direct oracle in group escape: every escape pair a table does NOT define (every undefined code x both built-in tables x sampled announced "
+            "further fixed cases: legacy protocols 1 and 2 with 16k chunks full of protected bytes (a legacy sender escapes after cutting: the escaped chunk exceeds the announced size), keys typed by the user during an upload (they must not reach the connection), a half-established tunnel (server greeting 1.3 s late: the in-band upload is escaped as without a tunnel). Direct oracle in group escape: every escape pair a table does NOT define (every undefined code x both built-in tables x sampled announced "
             "tables) must be rejected by the flat decoder for every destination size and by the streaming reader for every cut of the stream, "
             "between the leader and its code too",
     "trusted": ["modelled, not verified: JSON decoding and ISO-8859-1 encoding of the announced table (the model starts at the decoded array of strings); zstd in front of the escaper is an arbitrary byte function",
